@@ -6,6 +6,7 @@
 //    (See accompanying file LICENSE_1_0.txt or copy at
 //          https://www.boost.org/LICENSE_1_0.txt)
 
+#include <algorithm>
 #include <cstddef>
 #include <functional>
 #include <iostream>
@@ -90,14 +91,18 @@ namespace parmcb {
                 /*
                  * Heuristic in case number of signed edges is small compared to the number of vertices.
                  */
+                // All ranks must process the signed edges in the same order, since the work is split by
+                // position.  The order of a std::set<Edge> depends on the addresses of the edges, which
+                // differ between processes, so order them by their (rank independent) forest index.
+                std::vector<Edge> signed_edges_as_vector(signed_edges.begin(), signed_edges.end());
+                std::sort(signed_edges_as_vector.begin(), signed_edges_as_vector.end(),
+                        [&forest_index](const Edge &a, const Edge &b) {
+                            return forest_index(a) < forest_index(b);
+                        });
                 std::map<Edge, std::set<Edge>> hidden_edges_per_edge;
-                std::vector<Edge> signed_edges_as_vector;
-                std::set<Edge> tmp_signed_edges = signed_edges;
-                while (!tmp_signed_edges.empty()) {
-                    auto bit = tmp_signed_edges.begin();
-                    hidden_edges_per_edge.insert(std::make_pair(*bit, tmp_signed_edges));
-                    signed_edges_as_vector.push_back(*bit);
-                    tmp_signed_edges.erase(bit);
+                for (auto sit = signed_edges_as_vector.begin(); sit != signed_edges_as_vector.end(); ++sit) {
+                    hidden_edges_per_edge.insert(
+                            std::make_pair(*sit, std::set<Edge>(sit, signed_edges_as_vector.end())));
                 }
 
                 std::vector<Edge> local_signed_edges_as_vector;
